@@ -217,4 +217,27 @@ class C14(Prop):
         return v
 
 
+    def extra(self, ctx):
+        """Enumerated part: for a corpus of generated valid texts, EVERY truncation (cut after each character) and
+        every single-token deletion and duplication."""
+        rng = ctx.rng
+        ntexts = 25 if ctx.tier == 'quick' else max(4, 300 // ctx.nshards)
+        done = 0
+        for _ in range(ntexts):
+            if ctx.out_of_time():
+                ctx.notes.append('truncation/deletion enumeration stopped by the wall-clock budget')
+                break
+            t = self.valid_text(rng)
+            decl = rng.choice([['x', 'y', 'z'], ['x'], []])
+            variants = set(t[:i] for i in range(len(t) + 1))
+            toks = tokenise_loose(t)
+            for i in range(len(toks)):
+                variants.add(' '.join(toks[:i] + toks[i + 1:]))
+                variants.add(' '.join(toks[:i] + [toks[i]] + toks[i:]))
+            for vt in sorted(variants):
+                self.check(ctx, {'type': 'parse', 'text': vt, 'declared': decl, 'mutated': vt != t})
+            done += 1
+        ctx.count('texts-with-all-truncations-deletions-duplications', done)
+
+
 PROP = C14()
